@@ -140,6 +140,11 @@ func genC10Op(rt *rapid.T, kinds []string) C10Op {
 	return op
 }
 
+// subscription ids: arbitrary strings; two of them differ only in letter case, one is empty-ish
+func c10SubID(i int) string {
+	return []string{"sub-0", "SUB-0", "sub-1", "Sub-1 ü/%"}[i%4]
+}
+
 func genStoreCfg(rt *rapid.T) StoreCfg {
 	c := StoreCfg{Kind: rapid.SampledFrom([]string{"mem", "mem", "sqlite", "sqlite", "ds"}).Draw(rt, "store")}
 	switch c.Kind {
@@ -426,7 +431,7 @@ func (sc *C10Scenario) Execute(t *testing.T) *core.Outcome {
 				from, _, _ := pick(op.From)
 				// (OffsetOldest is an offset the store returns - LoadOffset for a subscription that never saved -
 				// and saving it sets the subscription back to the start of the log)
-				id := fmt.Sprintf("sub-%d", op.Sub)
+				id := c10SubID(op.Sub)
 				if err := subStore.SaveOffset(ctx, id, from); err != nil {
 					viol("save-failed", "save-error", "SaveOffset(%s, %q) failed: %v", id, from, err)
 					return
@@ -436,7 +441,7 @@ func (sc *C10Scenario) Execute(t *testing.T) *core.Outcome {
 				if subStore == nil {
 					return
 				}
-				id := fmt.Sprintf("sub-%d", op.Sub)
+				id := c10SubID(op.Sub)
 				got, err := subStore.LoadOffset(ctx, id)
 				if err != nil {
 					viol("load-failed", "load-error", "LoadOffset(%s) failed: %v", id, err)
